@@ -114,12 +114,12 @@ def match_known(ob, prop, known):
 
 # ------------------------------------------------------------------------------ helpers the rules do not know
 # Rules that follow calls themselves (their verdict does not depend on where a piece of code lives):
-HELPER_AWARE = {'CAPACITY', 'IN-RANGE', 'INDEX-COVER', 'CTOR-AGREE', 'NARROW-SCOPE', 'EFFECT', 'EFFECT-IR', 'ACCUM-ONCE', 'KEY-ARITH', 'ITER-INVALIDATION', 'OWN-ALIAS', 'FIELD-COVER', 'SENTINEL-EXCLUDED',
+HELPER_AWARE = {'CAPACITY', 'IN-RANGE', 'INDEX-COVER', 'INDEX-SYNC', 'WINDOW-FORM', 'CTOR-AGREE', 'NARROW-SCOPE', 'EFFECT', 'EFFECT-IR', 'ACCUM-ONCE', 'KEY-ARITH', 'ITER-INVALIDATION', 'OWN-ALIAS', 'FIELD-COVER', 'SENTINEL-EXCLUDED',
                 'PRECISION', 'TYPE', 'SLOPE-ORDER', 'INT-INTERCEPT', 'CONV-RANGE', 'TABLE-WIDTH', 'DATA-EXACT', 'BACK-GUARD', 'SELECT-RANGE'}
 
 
 # obligations decided on the flat view of a function (rules/inline.py: flat), which contains the bodies of all its helpers
-HELPER_AWARE_ARMS = {'build-level', 'end-gap', 'cover', 'deleted-set', 'upper-in-window', 'upper_bound'}
+HELPER_AWARE_ARMS = {'build-level', 'end-gap', 'cover', 'deleted-set', 'upper-in-window', 'upper_bound', 'G9', 'order'}
 
 
 def unknown_helpers(fn):
